@@ -301,8 +301,9 @@ class GooFitChain(AmplitudeChain):
         if self.ls_enum == LS.kMatrix:
             _, poleprod, pterm = self.lineshape.split(".")
             is_pole = "true" if poleprod == "pole" else "false"
+            # Same symbol as the one the parameter "sA_0" is declared with in make_pars
             return f"""new Lineshapes::kMatrix("{name}", {pterm}, {is_pole},
-            sA_0, sA, s0_prod, s0_scatt,
+            {programmatic_name("sA_0")}, sA, s0_prod, s0_scatt,
             f_scatt, IS_poles,
             {par}_M, {par}_W, {L}, {masses}, FF::BL2, {radius})"""
 
@@ -640,8 +641,9 @@ class GooFitPyChain(AmplitudeChain):
         if self.ls_enum == LS.kMatrix:
             _, poleprod, pterm = self.lineshape.split(".")
             is_pole = "True" if poleprod == "pole" else "False"
+            # Same symbol as the one the parameter "sA_0" is declared with in make_pars
             return f"""Lineshapes.kMatrix("{name}", {pterm}, {is_pole},
-            sA_0, sA, s0_prod, s0_scatt,
+            {programmatic_name("sA_0")}, sA, s0_prod, s0_scatt,
             f_scatt, IS_poles,
             {par}_M, {par}_W, {L}, {masses}, FF.BL2, {radius})"""
 
